@@ -222,6 +222,50 @@ def run_after_lost_remainder(framing, ca, cb, ka):
     return []
 
 
+def healthy_api_job(j):
+    """Every public call of an inverter object against a healthy, conforming inverter model (no faults, nothing refused
+    that the call needs): each request the call makes is answered by a conforming frame, so no call may fail with
+    RequestFailedException / MaxRetriesException (= some conforming answer was refused) - whatever command and response
+    type the library uses for it."""
+    cfg, transport = j
+    from ..configs import make_rig
+    from .c17 import domain, in_scope
+    OM = world.goodwe.OperationMode
+    r = make_rig(cfg, transport, fill=lambda a: 0, R=0)
+    inv = r.inv
+    out = []
+    n = 0
+
+    def call(name, fn, *a):
+        nonlocal n
+        res = r.call(fn, *a)
+        n += 1
+        if res[0] == 'exc' and res[1] in ('RequestFailedException', 'MaxRetriesException'):
+            out.append((name, f'{name}{a if len(str(a)) < 60 else ""} -> {res[1]} on a healthy inverter model'))
+        return res
+    if call('read_device_info', inv.read_device_info)[0] != 'ok':
+        return n, out
+    call('read_runtime_data', inv.read_runtime_data)
+    call('read_settings_data', inv.read_settings_data)
+    for s in inv.settings():
+        call('read_setting', inv.read_setting, s.id_)
+        d = domain(s, False) if in_scope(cfg, s) else None
+        if d:
+            call('write_setting', inv.write_setting, s.id_, d[len(d) // 2])
+    call('get_grid_export_limit', inv.get_grid_export_limit)
+    call('set_grid_export_limit', inv.set_grid_export_limit, 100)
+    if cfg['family'] != 'DT':
+        modes = call('get_operation_modes', inv.get_operation_modes, True)
+        for m in (modes[1] if modes[0] == 'ok' else ()):
+            call('set_operation_mode', inv.set_operation_mode, m, 40, 70)
+            call('get_operation_mode', inv.get_operation_mode)
+        call('set_ongrid_battery_dod', inv.set_ongrid_battery_dod, 40)
+        call('get_ongrid_battery_dod', inv.get_ongrid_battery_dod)
+    for s in inv.sensors()[:3]:
+        call('read_sensor', inv.read_sensor, s.id_)
+    return n, out
+
+
 def k_cases(tier):
     counts = (1, 2, 61, 125)
     for framing in ('rtu', 'tcp', 'aa55'):
@@ -244,6 +288,14 @@ def run(tier, seed, rep):
     for v in ovl:
         v['key'] = 'overlapping-callers:' + v['key']
     rep.add_many(ovl)
+    from .c17 import settings_configs
+    hjobs = [(c, tr) for c in settings_configs() for tr in (('udp', 'tcp') if c['family'] != 'ES' else ('udp',))]
+    nh = 0
+    for (c, tr), (n, out) in zip(hjobs, pmap(healthy_api_job, hjobs)):
+        nh += n
+        for name, cause in out:
+            rep.add(f"healthy-inverter-call-fails/{c['name']}/{tr}/{name}", 'conforming answers of a healthy inverter are accepted',
+                    dict(part='H', cfg=c, transport=tr), dict(cause=cause))
     jobs = []
     counts = list(range(1, 126))
     chunk = 8
@@ -288,7 +340,7 @@ def run(tier, seed, rep):
                     nk += 1
                     for key, cause in v:
                         rep.add(key, key.split('/')[0], dict(part='L', framing=framing, ca=ca, cb=cb, ka=ka), dict(cause=cause))
-    cov = dict(session_histories=_ses.executions, overlapping_caller_executions=novl, evaluations=total + nk + novl, distinct_nontrivial=nontriv,
+    cov = dict(api_calls_against_healthy_models=nh, session_histories=_ses.executions, overlapping_caller_executions=novl, evaluations=total + nk + novl, distinct_nontrivial=nontriv,
                rule='conforming frames built by the independent codec: RTU/MBAP read answers for every count x every '
                     'uniform fill byte (x all unit addresses for counts 1 and 125, x trailing 0/1/2/7 bytes on RTU), '
                     'walking-one payloads, write echoes over all 65536 registers x boundary values and all 65536 '
@@ -318,6 +370,13 @@ def replay(r):
         out = c06.replay(r)
         out['violations'] = [v for v in out['violations'] if v[0].startswith('answered-at-once:valid')]
         return out
+    if r['part'] == 'H':
+        cfg = r['cfg']
+        cfg['refused'] = tuple(cfg['refused'])
+        if isinstance(cfg.get('firmware'), dict):
+            cfg['firmware'] = bytes.fromhex(cfg['firmware']['hex'])
+        n, out = healthy_api_job((cfg, r['transport']))
+        return dict(calls=n, violations=out)
     if r['part'] == 'L':
         return dict(violations=run_after_lost_remainder(r['framing'], r['ca'], r['cb'], r['ka']) or [])
     if r['part'] == 'R':
